@@ -162,7 +162,8 @@ def gen_media(ch, spec):
     if cfg["mode"] == "live":
         # faults on first transmissions only; feedback and retransmissions get through
         p = Profile(base=base)
-        p.drop = ch.choice("cfg", [0.01, 0.05, 0.15])
+        # (0.0: the targeted losses below are then the only ones - nothing later repeats a request that went wrong)
+        p.drop = ch.choice("cfg", [0.0, 0.01, 0.05, 0.15])
         p.burst_enter = ch.choice("cfg", [0.0, 0.0, 0.01])
         p.burst_exit = 0.5
         p.reorder = ch.choice("cfg", [0.0, 0.05])
